@@ -161,6 +161,10 @@ def run(index: RepoIndex, rep) -> None:
              'heading (Agent.front, C18.R5)', floor=4)
     from .c18 import front_rule
     front_rule(index, rep, 'C10.R7')
+    rep.rule('C10.R8', 'doors and boxes are separate instances after the per-step copy: '
+             'opening one cannot open another (plain deep copy, C09.R5)', floor=15)
+    from .c09 import deep_copy_rule
+    deep_copy_rule(index, rep, 'C10.R8')
     rep.rule('C10.R6', 'no cell store of pickndrop can land on a Door or a Box (only actuation '
              'affects them)', floor=1)
     from ..dynmodel import FRONT, cell, describe_world
